@@ -126,10 +126,19 @@ def run(ck, w):
     # ---- 2. hunks non-empty -----------------------------------------------------------------------------
     fh = w.body("index::write::IndexWriter::finish_hunk")
     o = ck.ob("C13.2", "finish_hunk writes a hunk only when there are entries to write")
-    ie = [e for e in fh.events if e.bb in fh.live and e.name.endswith("Vec::<T, A>::is_empty")]
-    ie = [e for e in ie if any("entries" in (x[2] if x[0] in ("param", "upvar") else ()) for x in flow.origins_x(lib, fh, e.args[0]))]
     wr = events_of(lib, fh, "transport::Transport::write")
-    rules.guarded_by_bool(ck, o, fh, ie, False, wr, "entries.is_empty()", "hunk write")
+    ne_edges = rules.nonempty_edges(fh, lambda op: any("entries" in (x[2] if x[0] in ("param", "upvar") else ()) for x in flow.origins_x(lib, fh, op)))
+    if not ne_edges:
+        ck.fail(o, fh.name, "no entries.is_empty() test", "finish_hunk never tests self.entries for emptiness (is_empty(), or len() against a constant)")
+    elif not wr:
+        ck.fail(o, fh.name, "no hunk write", "Transport::write not found in finish_hunk")
+    else:
+        bad_ = [e for e in wr if not fh.must_pass_edges(ne_edges, e.bb)]
+        if bad_:
+            ck.fail(o, fh.name, "hunk write not guarded by entries.is_empty()==False",
+                    "the hunk write is reachable with no entries queued: %s" % rules.witness(fh, bad_[0].bb, removed_edges=ne_edges), bad_[0].site())
+        else:
+            ck.ok(o, "%d write(s) behind a non-emptiness test of self.entries" % len(wr), instances=len(wr))
     o = ck.ob("C13.2b", "the hunk body is the serialisation of self.entries, compressed")
     cr = rules.creators_of(fh, "transport::Transport::write")
     if cr:
